@@ -6,6 +6,8 @@ import (
 	"context"
 	"sort"
 
+	clock "github.com/jonboulle/clockwork"
+
 	"github.com/drand/drand/v2/common/key"
 	"github.com/drand/drand/v2/common/log"
 	"github.com/drand/drand/v2/crypto"
@@ -71,3 +73,9 @@ func VerifSetSyncThresholdScheme(h *Handler, ts sign.ThresholdScheme) { h.chain.
 
 // VerifSetSyncManagerThresholdScheme: see VerifSetSyncThresholdScheme.
 func VerifSetSyncManagerThresholdScheme(s *SyncManager, ts sign.ThresholdScheme) { s.scheme.ThresholdScheme = ts }
+
+// VerifNewDiscrepancyStore is the bottom layer of the handler's store stack (newChainStore builds
+// callback -> append -> scheme -> discrepancy -> database).
+func VerifNewDiscrepancyStore(s chain.Store, l log.Logger, group *key.Group, cl clock.Clock) chain.Store {
+	return newDiscrepancyStore(s, l, group, cl)
+}
